@@ -60,8 +60,12 @@ def is_public(prog, q: str) -> bool:
     return True
 
 
+PROG = [None]
+
+
 def run(ctx, obs):
     prog, heap = ctx.prog, ctx.heap
+    PROG[0] = prog
     exc = load_effect_exceptions()
     for x in exc.get('pure_origin_exempt', []):
         obs.exceptions.append(f"PURE origin {x['origin']} on {x['loc']}: {x['reason']}")
@@ -89,6 +93,8 @@ def _exempt_write(q, fi, loc, kind, key, origin, exc) -> str:
         return INPLACE_HELPERS[q]
     if key == 'index':
         return 'library-managed index entry'
+    if key == 'rsatoolbox_version' and kind != 'field':
+        return 'library-managed version stamp of a serialisation dict (neither a data array nor a user-supplied descriptor)'
     if kind == 'field' and key == 'shape':
         return 'attribute store on a view object (reshapes the view, not the data)'
     root = param_of(loc)
@@ -101,7 +107,7 @@ def _exempt_write(q, fi, loc, kind, key, origin, exc) -> str:
         if fi.name in ('__setattr__', '__setitem__', '__delitem__'):
             return 'mutator protocol'
     for x in exc.get('pure_origin_exempt', []):
-        if origin and origin[0] == x['origin'] and (x['loc'] == '*' or loc.startswith(x['loc'])):
+        if origin and x['origin'] in PROG[0].pinned_names(origin[0]) and (x['loc'] == '*' or loc.startswith(x['loc'])):
             return x['reason']
     return ''
 
